@@ -34,12 +34,15 @@ GCreate == Ev.k = "write" /\ Ev.region = "out" /\ ~Ev.existed /\ Ev.path \notin 
 \* ImageWriter.__init__ creates the output directory itself when it is missing
 GMkdir == Ev.k = "mkdir" /\ Ev.region = "out"
 
+\* a directory listing: only of a resource directory, or the interpreter looking for its own modules
+GList == Ev.k = "list" /\ Ev.region \in {"res", "code"}
+List == HasEv /\ GList /\ i' = i + 1 /\ UNCHANGED <<t, created, rejected>>
 Read == HasEv /\ GRead /\ i' = i + 1 /\ UNCHANGED <<t, created, rejected>>
 Create == HasEv /\ GCreate /\ created' = created \cup {Ev.path} /\ i' = i + 1 /\ UNCHANGED <<t, rejected>>
 Mkdir == HasEv /\ GMkdir /\ i' = i + 1 /\ UNCHANGED <<t, created, rejected>>
 
 NextTrace == t' = t + 1 /\ i' = 0 /\ created' = {}
-Reject == /\ HasEv /\ ~(GRead \/ GCreate \/ GMkdir)
+Reject == /\ HasEv /\ ~(GRead \/ GCreate \/ GMkdir \/ GList)
           /\ PrintT("@@" \o ToJson([t |-> t, ok |-> FALSE, i |-> i]))
           /\ rejected' = rejected + 1 /\ NextTrace
 EndTrace == /\ t <= N /\ i = Len(Cur.events)
@@ -47,7 +50,7 @@ EndTrace == /\ t <= N /\ i = Len(Cur.events)
             /\ NextTrace /\ UNCHANGED rejected
 Finished == t > N /\ UNCHANGED vars
 
-Next == Read \/ Create \/ Mkdir \/ Reject \/ EndTrace \/ Finished
+Next == Read \/ List \/ Create \/ Mkdir \/ Reject \/ EndTrace \/ Finished
 Spec == Init /\ [][Next]_vars
 
 \* every path recorded as created so far was created exactly once, inside the output directory
